@@ -328,6 +328,7 @@ def check(prop, tier, only=None, list_only=False):
             "selftest_cases": n_self, "library_model_comparisons_vs_cpython": n_modelcheck,
             "outside_the_bound": getattr(mod, "OUTSIDE", []),
             "stubs": getattr(mod, "STUBS", []),
+            "harness_stats": getattr(mod, "STATS", {}),
         },
         "assumptions": getattr(mod, "ASSUMPTIONS", []),
         "wall_s": wall, "violations": len(violations),
